@@ -3,8 +3,8 @@ CONSTANTS
  Paths = {"p1","p2"}
  Branches = {"main","dev"}
  Ages = {0, 1}
- MaxCommits = 5
- MaxSteps = 7
+ MaxCommits = 4
+ MaxSteps = 6
  Emit = FALSE
  Skew = TRUE
  Selections = {{"p1"}, {"p1","p2"}}
